@@ -1,13 +1,14 @@
 //go:build verif
 
 // Machine-checked contracts for package trackerserver (comment-only; read by /verif/govc).
-// Property C26: announce handouts.
+// Property C26: announce handouts (rank / known: spec functions of package peerhandoutpolicy).
 
 package trackerserver
 
 //@ func Server.getPeerHandout
-//@   requires s != nil && s.policy != nil && peer != nil && allocated(peer)
+//@   requires s != nil && s.policy != nil && allocated(s.policy) && known(s.policy.policy) && peer != nil && allocated(peer)
 //@   modifies *
 //@   ensures complete_gets_nothing: old(peer.Complete) ==> len(result0) == 0 && result1 == nil
 //@   ensures excludes_announcer: forall k int :: 0 <= k && k < len(result0) ==> result0[k] != nil && result0[k].PeerID != peer.PeerID
+//@   ensures ordered: forall a int, b int :: 0 <= a && a < b && b < len(result0) ==> rank(s.policy.policy, result0[a]) <= rank(s.policy.policy, result0[b])
 //@   ensures bounded: len(result0) <= max(s.config.PeerHandoutLimit, 0) + max(originCount(d), 0)
